@@ -6,7 +6,8 @@ from ..core import AnalysisError, u, walk_local, enclosing_stmt
 from ..lib import (construct, std_facts, facts_at, def_of, calls_of_node,
                    copy_kind, in_subtree, stored_names)
 from ..resolve import store_accesses
-from .common import scope_entry, allowed_stores
+from .common import scope_entry, allowed_stores, scope_who, signature_agreement
+from .c04 import isolate
 from .wrapper import WrapperModel
 
 
@@ -259,5 +260,10 @@ def run(ctx):
     ctx.check(ok, 'C01.precedence', con, 'bindings for positionally supplied names are dropped before the call (caller wins, no duplicate-value error)',
               'bindings for positionally supplied parameters are not removed before the call', f.loc(), instance='positional-names-dropped')
 
+  # "receives the bound value": the callee must get the value as bound, not an object an earlier call could have edited
+  isolate(ctx, w, 'C01.bound-value')
+  signature_agreement(ctx, 'C01.precedence')
+
   # ---- C01.scope-entry
   scope_entry(ctx, 'C01.scope-entry')
+  scope_who(ctx, 'C01.scope-entry')
